@@ -161,7 +161,7 @@ Definition format_parse (f : str) : option (Z * Z) :=
   match f with
   | [] => None
   | ty :: rest => match py_int 10 (take_until 47 rest) with
-                  | Some bw => Some (ty, bw)
+                  | Some bw => if bw <? 0 then None (* 1 << bitwidth raises ValueError *) else Some (ty, bw)
                   | None => None
                   end
   end.
@@ -173,6 +173,30 @@ Fixpoint enum_by_name (data : str) (e : list (str * Z)) : option Z :=
   match e with [] => None | (n, v) :: t => if str_eqb data n then Some v else enum_by_name data t end.
 Fixpoint enum_by_value (v : Z) (e : list (str * Z)) : option str :=
   match e with [] => None | (n, v') :: t => if v =? v' then Some n else enum_by_value v t end.
+
+(* ---- Python built-ins that can raise, as used by the GENERATED formatted-string functions
+   (Gen/ConvFmt.v).  Codes: 1001 IndexError, 1002 ValueError, 1003 AttributeError. *)
+Definition str_index (s : str) (k : nat) : res Z :=
+  match nth_error s k with Some c => Ok c | None => Err 1001 end.
+Definition nth_r (l : list str) (k : nat) : res str :=
+  match nth_error l k with Some x => Ok x | None => Err 1001 end.
+Definition py_int_r (base : Z) (s : str) : res Z :=
+  match py_int base s with Some z => Ok z | None => Err 1002 end.
+Definition shift_count_r (n : Z) : res Z := if n <? 0 then Err 1002 else Ok n.
+
+(* an enum class: (__name__, members (name, value) in definition order); enum_set: a list of them *)
+Definition enum_class : Type := (str * list (str * Z))%type.
+(* [e for e in enum_set if e.__name__ == enumname] *)
+Definition enums_named (name : str) (es : list enum_class) : list enum_class :=
+  filter (fun e => str_eqb (fst e) name) es.
+Definition enumlist_index (l : list enum_class) (k : nat) : res enum_class :=
+  match nth_error l k with Some x => Ok x | None => Err 1001 end.
+(* getattr(E, data).value *)
+Definition enum_getattr_value (e : enum_class) (data : str) : res Z :=
+  match enum_by_name data (snd e) with Some v => Ok v | None => Err 1003 end.
+(* E(val).name *)
+Definition enum_call_name (e : enum_class) (v : Z) : res str :=
+  match enum_by_value v (snd e) with Some n => Ok n | None => Err 1002 end.
 
 (* format.split('/')[1] : the text between the first and the second '/' (None = IndexError) *)
 Fixpoint enum_name (f : str) : option str :=
